@@ -204,17 +204,24 @@ Proof.
   destruct ex as [[s e]|]; reflexivity.
 Qed.
 
-Lemma client_prop c :
+Lemma need_comp_norm c : need_comp (norm_cr c) = need_comp c.
+Proof. now destruct c. Qed.
+
+Lemma client_prop d c :
+  (d + 2 < MAXD)%N -> (1 + need_comp c < MAXD)%N ->
   valid_cr (norm_cr c) = true ->
-  exists raws, u_dprop [] (marshal_prop (encode_calendar_req c)) = Ok raws
+  exists raws, u_dprop d [] (marshal_prop (encode_calendar_req c)) = Ok raws
                /\ decode_prop_caldata (Some raws) = Ok (norm_cr c).
 Proof.
-  intros Hv. unfold encode_calendar_req. rewrite (marshal_caldata _ Hv).
+  intros Hdl Hnc Hv. unfold encode_calendar_req. rewrite (marshal_caldata _ Hv).
   pose proof (lexvar_strip _ _ (lv_caldata (norm_cr c)) (plain_caldata _)) as Hl.
-  apply (u_caldata_lex _ _ Hv) in Hl. destruct Hl as (d & Hu & Hd).
-  unfold marshal_prop, u_dprop. rewrite name_eqb_refl. cbn [negb fold_res dprop_kid w_caldata app].
+  apply (u_caldata_lex 0 (norm_cr c) _ ltac:(rewrite need_comp_norm; lia) Hv) in Hl. destruct Hl as (cd & Hu & Hd).
+  unfold marshal_prop, u_dprop. rewrite chk_lt by lia. rewrite name_eqb_refl.
+  cbn [negb]. unfold w_caldata at 1. cbn [fold_res dprop_kid]. rewrite !chk_lt by lia. cbv beta iota.
   eexists. split; [reflexivity |].
-  unfold decode_prop_caldata. cbn [find].
+  unfold decode_prop_caldata. cbn [app find].
+  change (Elem (cn "calendar-data") [] (w_comp_sel (norm_cr c) :: opt_list w_expand_el (cr_expand (norm_cr c))))
+    with (w_caldata (norm_cr c)).
   change (strip_decls (strip_foreign (w_caldata (norm_cr c)))) with (strip (w_caldata (norm_cr c))).
   assert (Hi : is_caldata (strip (w_caldata (norm_cr c))) = true) by reflexivity.
   rewrite Hi. rewrite Hu. exact Hd.
@@ -293,6 +300,82 @@ Proof.
   - rewrite (norm_cr_utc _ H). now destruct m.
 Qed.
 
+(** normalisation does not change the nesting *)
+Lemma need_pf_norm p : need_pf (norm_pf p) = need_pf p.
+Proof. now destruct p. Qed.
+
+Lemma maxl_map {A} (f : A -> N) (g : A -> A) l : (forall x, In x l -> f (g x) = f x) -> maxl f (map g l) = maxl f l.
+Proof.
+  unfold maxl. induction l as [|x r IH]; intros H; cbn [map fold_right]; [reflexivity |].
+  rewrite (H x (or_introl eq_refl)), IH; [reflexivity |]. intros y Hy. apply H. now right.
+Qed.
+
+Lemma need_cf_norm f : need_cf (norm_cf f) = need_cf f.
+Proof.
+  induction f as [nm ind s e props comps IH] using comp_filter_ind2. cbn [norm_cf need_cf].
+  rewrite has_tr_norm.
+  rewrite (maxl_map (fun p => 2 + need_pf p)%N norm_pf props) by (intros; now rewrite need_pf_norm).
+  rewrite (maxl_map (fun c => 2 + need_cf c)%N norm_cf comps); [reflexivity |].
+  intros x Hx. rewrite Forall_forall in IH. now rewrite (IH x Hx).
+Qed.
+
+Lemma fits_request_norm r : fits_request (normalise r) = fits_request r.
+Proof. destruct r as [q|m]; cbn; now rewrite ?need_comp_norm, ?need_cf_norm. Qed.
+
+(** a simple sufficient condition: how deep comp-filters / comps are nested *)
+Fixpoint cf_depth (f : comp_filter) : N :=
+  match f with CompFilter _ _ _ _ _ comps => 1 + maxl cf_depth comps end.
+Fixpoint cr_depth (c : comp_request) : N :=
+  match c with CompReq _ _ _ _ comps _ => 1 + maxl cr_depth comps end.
+
+Lemma maxl_le {A} (f : A -> N) l b : (forall x, In x l -> (f x <= b)%N) -> (maxl f l <= b)%N.
+Proof.
+  unfold maxl. induction l as [|x r IH]; intros H; cbn [fold_right]; [lia |].
+  pose proof (H x (or_introl eq_refl)). specialize (IH (fun y Hy => H y (or_intror Hy))). lia.
+Qed.
+
+Lemma need_paf_le p : (need_paf p <= 1)%N.
+Proof. unfold need_paf. destruct (_ || _); lia. Qed.
+Lemma need_pf_le p : (need_pf p <= 3)%N.
+Proof.
+  unfold need_pf. assert (maxl (fun q => 2 + need_paf q)%N (pf_params p) <= 3)%N.
+  { apply maxl_le. intros x _. pose proof (need_paf_le x). lia. }
+  destruct (_ || _); lia.
+Qed.
+
+Lemma need_cf_le f : (need_cf f <= 2 * cf_depth f + 3)%N.
+Proof.
+  induction f as [nm ind s e props comps IH] using comp_filter_ind2. cbn [need_cf cf_depth].
+  assert (H1 : (maxl (fun p => 2 + need_pf p) props <= 5)%N).
+  { apply maxl_le. intros x _. pose proof (need_pf_le x). lia. }
+  assert (H2 : (maxl (fun c => 2 + need_cf c) comps <= 2 * maxl cf_depth comps + 5)%N).
+  { apply maxl_le. intros x Hx. rewrite Forall_forall in IH. specialize (IH x Hx).
+    pose proof (maxl_in cf_depth comps x Hx). lia. }
+  destruct (_ || _); lia.
+Qed.
+
+Lemma need_comp_le c : (need_comp c <= 2 * cr_depth c)%N.
+Proof.
+  induction c as [nm ap ps ac comps ex IH] using comp_request_ind2. cbn [need_comp cr_depth].
+  assert (H2 : (maxl (fun k => 2 + need_comp k) comps <= 2 * maxl cr_depth comps + 2)%N).
+  { apply maxl_le. intros x Hx. rewrite Forall_forall in IH. specialize (IH x Hx).
+    pose proof (maxl_in cr_depth comps x Hx). lia. }
+  destruct (_ || _), ps; lia.
+Qed.
+
+Definition req_cf_depth (r : request) : N := match r with RQuery q => cf_depth (q_cf q) | RMultiget _ => 0 end.
+Definition req_cr_depth (r : request) : N := match r with RQuery q => cr_depth (q_cr q) | RMultiget m => cr_depth (mg_cr m) end.
+
+(** comp-filters nested at most 4997 deep and component requests at most 4999
+    deep stay below encoding/xml's limit, whatever else the request contains *)
+Theorem fits_by_depth r : (req_cf_depth r <= 4997)%N -> (req_cr_depth r <= 4999)%N -> fits_request r = true.
+Proof.
+  destruct r as [q|m]; cbn [req_cf_depth req_cr_depth fits_request]; intros H1 H2.
+  - pose proof (need_cf_le (q_cf q)). pose proof (need_comp_le (q_cr q)).
+    apply andb_true_iff. split; apply N.ltb_lt; unfold MAXD; lia.
+  - pose proof (need_comp_le (mg_cr m)). apply N.ltb_lt. unfold MAXD. lia.
+Qed.
+
 Section Main.
 Variable href_fmt : string -> string.
 Variable href_parse : string -> option string.
@@ -300,16 +383,19 @@ Variable href_parse : string -> option string.
 (** The request [caldav.Client] writes reaches the backend of [caldav.Handler]
     as the caller's request (instants in UTC). *)
 Theorem end_to_end path r :
-  expressible href_fmt href_parse r = true ->
+  expressible href_fmt href_parse r = true -> fits_request r = true ->
   handle_report href_parse path (client_body href_fmt path r) = Ok (backend_call_of path (normalise r)).
 Proof.
-  unfold expressible. intros Hv. destruct r as [q|m]; cbn [normalise valid client_body backend_call_of] in *.
+  pose proof MAXD_big as HM.
+  unfold expressible. intros Hv Hfit. destruct r as [q|m]; cbn [normalise valid client_body backend_call_of fits_request] in *.
   - apply andb_true_iff in Hv. destruct Hv as [Hcr Hcf]. cbn [q_cr q_cf] in *.
-    destruct (client_prop _ Hcr) as (raws & Hu & Hd).
-    pose proof (u_filter_lex _ _ Hcf (lv_filter _)) as (wf & Huf & Hdf).
+    apply andb_true_iff in Hfit. destruct Hfit as [Hf1 Hf2]. apply N.ltb_lt in Hf1, Hf2.
+    destruct (client_prop (0 + 1) _ ltac:(lia) Hf1 Hcr) as (raws & Hu & Hd).
+    pose proof (u_filter_lex (0 + 1) (norm_cf (q_cf q)) _ ltac:(rewrite need_cf_norm; lia) Hcf (lv_filter _)) as (wf & Huf & Hdf).
     unfold marshal_calendar_query, query_calendar. cbn [wq_prop wq_allprop wq_propname wq_filter opt_list flag_elem app].
     rewrite (marshal_cf _ Hcf).
-    unfold handle_report. rewrite name_eqb_refl. unfold u_calendar_query. rewrite name_eqb_refl. cbn [negb].
+    unfold handle_report. rewrite name_eqb_refl. unfold u_calendar_query. rewrite chk_lt by lia.
+    rewrite name_eqb_refl. cbn [negb].
     unfold marshal_prop in Hu |- *. cbn [fold_res wq_kid]. rewrite name_eqb_refl.
     cbn [wq_prop zero_wq opt_default]. rewrite Hu.
     change (name_eqb (cn "filter") (dn "prop")) with false.
@@ -319,17 +405,17 @@ Proof.
     cbn [wq_filter zero_wq]. rewrite Huf.
     unfold handle_query. cbn [wq_prop wq_filter]. rewrite Hd, Hdf. reflexivity.
   - apply andb_true_iff in Hv. destruct Hv as [Hv Hps]. apply andb_true_iff in Hv. destruct Hv as [Hcr Hne].
-    cbn [mg_cr mg_paths] in *.
-    destruct (client_prop _ Hcr) as (raws & Hu & Hd).
+    cbn [mg_cr mg_paths] in *. apply N.ltb_lt in Hfit.
+    destruct (client_prop (0 + 1) _ ltac:(lia) Hfit Hcr) as (raws & Hu & Hd).
     unfold marshal_multiget, multiget_calendar. cbn [wm_prop wm_allprop wm_propname wm_hrefs opt_list flag_elem app].
     destruct (mg_paths m) as [|p0 ps0] eqn:Em; [discriminate |].
     unfold handle_report.
     change (name_eqb (cn "calendar-multiget") (cn "calendar-query")) with false.
-    rewrite name_eqb_refl. unfold u_multiget. rewrite name_eqb_refl. cbn [negb].
+    rewrite name_eqb_refl. unfold u_multiget. rewrite chk_lt by lia. rewrite name_eqb_refl. cbn [negb].
     unfold marshal_prop in Hu |- *. cbn [fold_res wm_kid]. rewrite name_eqb_refl.
     cbn [wm_prop zero_wm opt_default]. rewrite Hu.
     change (marshal_href href_fmt) with (w_href href_fmt).
-    rewrite (fold_hrefs href_fmt href_parse _ Hps _ _ (Forall2_refl_map _ _ (lv_href href_fmt))).
+    rewrite (fold_hrefs href_fmt href_parse 0 _ ltac:(lia) Hps _ _ (Forall2_refl_map _ _ (lv_href href_fmt))).
     cbn [wm_prop wm_hrefs zero_wm app].
     unfold handle_multiget. cbn [wm_prop wm_hrefs]. rewrite Hd. reflexivity.
 Qed.
@@ -380,6 +466,7 @@ Theorem server_in_domain_ok path r doc :
   handle_report href_parse path doc = Ok (backend_call_of path r) /\ rfc_read href_parse doc = Some r.
 Proof.
   unfold server_in_domain. intros H. apply andb_true_iff in H. destruct H as [Hv Hb].
+  apply andb_true_iff in Hv. destruct Hv as [Hv Hfit].
   apply variant_b_lexvar in Hb. split.
   - now apply (server_denotes href_fmt).
   - now apply (rfc_read_lex href_fmt).
@@ -398,7 +485,8 @@ Theorem client_model_meets_spec path r :
                  (handle_report href_parse path (client_body href_fmt path r)) = true.
 Proof.
   unfold client_spec_ok. destruct (expressible href_fmt href_parse r) eqn:E; [|reflexivity].
-  rewrite (client_conformant path _ E), (end_to_end path _ E). now rewrite !sb_refl.
+  destruct (fits_request r) eqn:Ef; [|reflexivity]. cbn [andb].
+  rewrite (client_conformant path _ E), (end_to_end path _ E Ef). now rewrite !sb_refl.
 Qed.
 
 End Main.
